@@ -216,6 +216,8 @@ def merge_overlapping_indices(afi, afid, bfi, bfid):
     # Find repeated indices, brute force version
     for i0 in range(an):
         if afi[i0] in bfi:
+            if afid[i0] != bfid[bfi.index(afi[i0])]:
+                raise ValueError("Repeated index ranges over different dimensions.")
             repeated_indices.append(afi[i0])
             repeated_index_dimensions.append(afid[i0])
 
